@@ -35,7 +35,7 @@ theorem noConnLock_init (heads best targets pubs st rtts) : NoConnLock (mkInit h
 theorem reachable_connFree {v s} (hv : v.pubUnlocked = true) (h : Reachable v s) : ∀ c, connFree s c = true := by
   have : NoConnLock s := by
     induction h with
-    | init heads best targets pubs st rtts hp hh => exact noConnLock_init heads best targets pubs st rtts
+    | init heads best targets pubs st rtts hp hh hb => exact noConnLock_init heads best targets pubs st rtts
     | step _ hs ih => exact noConnLock_step hv ih hs
   exact connFree_of_noConnLock this
 
@@ -103,7 +103,7 @@ theorem invO_init (heads best targets pubs st rtts) : InvO (mkInit heads best ta
 
 theorem reachable_invO {v s} (h : Reachable v s) : InvO s := by
   induction h with
-  | init heads best targets pubs st rtts hp hh => exact invO_init ..
+  | init heads best targets pubs st rtts hp hh hb => exact invO_init ..
   | step hr hs ih => exact invO_step (reachable_invA hr) ih hs
 
 end Tongo.PoolSM
